@@ -537,6 +537,17 @@ func (kc *kernelCtx) runFunc0(b *Block) *Unit {
 			continue
 		}
 		for _, o := range e.st.Obls {
+			// `trusted <obligation> : <reason>`: a safety obligation the contract leaves to an argument outside the
+			// verifier (reported with the assumptions, never counted as discharged)
+			skip := false
+			for _, c := range b.all("trusted") {
+				if strings.TrimSpace(strings.SplitN(c.Text, ":", 2)[0]) == o.Name {
+					skip = true
+				}
+			}
+			if skip {
+				continue
+			}
 			byName[o.Name] = append(byName[o.Name], o)
 			if _, ok := meta[o.Name]; !ok {
 				meta[o.Name] = o
